@@ -400,6 +400,8 @@ def _one(plan, dom, cfg, ctx, n, nalloc, L0, L1, baseline, tracked, h, base,
         for e in got:
             k = e[0] if mapping else e
             model.d[kidx[k]] = vidx[e[1]] if mapping else True
+        cmpfault.query_sweep(c, model, dom, "c", kind, sig,
+                             "%r, allocation %d/%d failed" % (op, n, nalloc))
         for f in plan["follow"]:
             want = model.apply(f)
             have = ops.apply(c, f, dom, "c", kind)
